@@ -7,15 +7,15 @@ import ApiFu.C20.LemLevel
 namespace ApiFu.C20
 
 /-- The pair a fragment selection records in `typeConditions`. -/
-def FragPair (ft : List (Name × Name)) (td : TypeDef) : Sel → Name → Name → Prop
-  | .inline cond _, c, f => c = cond.getD td.name ∧ f = cond.getD td.name
-  | .spread g, c, f => c = lookupFrag ft g ∧ f = g
+def FragPair (ft : List (Name × Name)) (tbl : HolderTable) (td : TypeDef) : Sel → Name → Name → Prop
+  | .inline cond ss, c, f => c = cond.getD td.name ∧ f = memberKey tbl td (.inline cond ss)
+  | .spread g, c, f => c = lookupFrag ft g ∧ f = memberKey tbl td (.spread g)
   | .field _ _ _, _, _ => False
 
 /-- What the generator recorded in `fields` for one selection, and why that is good. -/
 def MemberGood (S : Schema) (env : List Decl) (frag : Name → Name → List JMember → Option (List LeafAt))
-    (td : TypeDef) (s : Sel) (e : FieldEntry) : Prop :=
-  e.key = memberKey td s ∧
+    (tbl : HolderTable) (td : TypeDef) (s : Sel) (e : FieldEntry) : Prop :=
+  e.key = memberKey tbl td s ∧
   match s with
   | .field _ name subs =>
     e.dash = false ∧
@@ -50,8 +50,8 @@ theorem membersOK_mem {S : Schema} {ft : List (Name × Name)} {td : TypeDef} :
     · exact ih h.2 s hs
 
 theorem forall2_keys {S : Schema} {env : List Decl} {frag : Name → Name → List JMember → Option (List LeafAt)}
-    {td : TypeDef} : ∀ {sels : List Sel} {es : List FieldEntry}, Forall2 (MemberGood S env frag td) sels es →
-      es.map (fun e => fieldName e.key) = sels.map (fun s => fieldName (memberKey td s)) := by
+    {tbl : HolderTable} {td : TypeDef} : ∀ {sels : List Sel} {es : List FieldEntry}, Forall2 (MemberGood S env frag tbl td) sels es →
+      es.map (fun e => fieldName e.key) = sels.map (fun s => fieldName (memberKey tbl td s)) := by
   intro sels es h
   induction h with
   | nil => rfl
